@@ -20,7 +20,7 @@ for pid, c in sorted(CLAIMED.items()):
 na = [dict(property_id=p, reason=CLAIMED_NA.get(p, "not built yet in this round")) for p in ALL if p not in CLAIMED] if (CLAIMED_NA := json.load(open(os.path.join(V, "tools", "not_applicable.json")))) is not None else []
 m = dict(
     version=1,
-    setup_cmd="cd /verif/coq && coq_makefile -f _CoqProject -o Makefile && timeout 3000 make -j16",
+    setup_cmd="cd /verif && /venv/bin/python harness/translate.py && cd coq && coq_makefile -f _CoqProject -o Makefile && timeout 3000 make -j16",
     hooks=dict(guard="FLODYM_VERIF", enable="no source hooks are needed: every observable is public API (values, dims, exceptions, log records, returned figures/dicts/files, np.shares_memory)",
                baseline_off_cmd="cd /repo && /venv/bin/python -m pytest -ra -q -p no:cacheprovider --timeout=900 --continue-on-collection-errors",
                source_commits=[], add_only=True),
